@@ -235,6 +235,7 @@ func checkC17(c *Ctx) {
 	checkResponsePrecedence(c, pk)
 	checkLoopTotality(c, "C17.R7.loop-totality", pk, "codescan", 40, codescanLoopExits)
 	checkTypeOfNil(c, "C17.R1.typeof-nil", pk)
+	checkArgumentRoles(c, "C17.R6.argument-roles", pk, "codescan", 3)
 	checkAliasExpansionGuard(c, "C17.R1.alias-recursion", pk)
 	checkModelsRescanned(c, "C17.R8.models-rescanned", pk)
 
